@@ -64,6 +64,7 @@ def ytRe (name : String) (x : Str) : Json :=
   | "next_v" => joptStr (Youtube.nextV x)
   | "nested_next_v" => joptStr (Youtube.nestedNextV x)
   | "fragment_v" => joptStr (Youtube.fragmentV x)
+  | "unsafe_url_chars" => out (Youtube.stripUnsafe x)
   | _ => jerr "unknown-regex"
 
 def gRe (name : String) (x : Str) : Json :=
